@@ -5,6 +5,7 @@
    `bin/mkprops.py`, then kept as source).  What is proved and what is partial: DESIGN.md §4. -/
 import Peppi.VersionProof
 import Peppi.VersionMore
+import Peppi.VersionText
 set_option linter.unusedVariables false
 namespace Peppi.Props.C20
 
@@ -84,5 +85,20 @@ theorem Ver_display_inj (v w : Ver) (hv : v.WF) (hw : w.WF) (h : v.display = w.d
 /- from `Peppi.VersionMore` -/
 theorem Ver_parse_display_parse (s : List Char) (v : Ver) (h : Ver.parse s = .ok v) : Ver.parse v.display = .ok v :=
   _root_.Peppi.Ver.parse_display_parse s v h
+
+/- from `Peppi.VersionText` -/
+theorem showU8_canonical : ∀ n, n < 256 →
+    (showU8 n).all isDigit = true ∧ 1 ≤ (showU8 n).length ∧ (showU8 n).length ≤ 3 ∧
+    ((showU8 n).head? = some '0' → n = 0) :=
+  _root_.Peppi.showU8_canonical 
+
+/- from `Peppi.VersionText` -/
+theorem Ver_display_length (v : Ver) (h : v.WF) : 5 ≤ v.display.length ∧ v.display.length ≤ 11 :=
+  _root_.Peppi.Ver.display_length v h
+
+/- from `Peppi.VersionText` -/
+theorem Ver_display_chars (v : Ver) (h : v.WF) :
+    v.display.all (fun c => isDigit c || c == '.') = true ∧ (v.display.filter (· == '.')).length = 2 :=
+  _root_.Peppi.Ver.display_chars v h
 
 end Peppi.Props.C20
